@@ -16,7 +16,9 @@ RULE = ("histories of 2-6 phases over one, two or three files used alternately i
         "replacement, DFANgetlabel/DFANgetdesc/len, DFANaddfid/DFANaddfds, enumeration of file labels/descriptions (as a "
         "whole loop and call by call: DFANgetfidlen/DFANgetfid/DFANgetfdslen/DFANgetfds with isfirst 1/0, label and "
         "description enumerations interleaved, with and without the length call, small buffers, beyond the end, "
-        "restarts, after a completed enumeration, on the next file), "
+        "restarts, after a completed enumeration, on the next file), DFANlablist paging (listsize 1..8, startpos 1..5), "
+        "narrow AN sessions that load the trees of one or two types only, ANend + ANstart on the same open file id "
+        "followed by a probe of all types, "
         "DFANlablist); texts of 1..300 bytes, descriptions with arbitrary bytes incl. NUL, labels NUL-free; up to ~25 "
         "annotations per file, several per object; every history ends with a reopen and a full read-back through both "
         "interfaces; all choices from one PRNG (VERIF_SEED); a light shadow state only steers weights; a malformed "
@@ -92,14 +94,20 @@ class Shadow:
         return sum(1 for a in self.anns if a["type"] == t)
 
 
-def gen_an_phase(r, sh, lines, malformed, nops):
+def gen_an_phase(r, sh, lines, malformed, nops, types=None):
+    """one AN session.  types: restrict the session to these annotation types and never call ANfileinfo, so that the
+    trees of the other types are never loaded (a 'narrow' session); such a session may be followed by ANend + ANstart
+    on the same open file (restart) and a probe of everything"""
     lines.append("start")
     sh.slots = {}
+    T = types if types is not None else [0, 1, 2, 3]
     for _ in range(nops):
         x = r.random()
+        if types is not None and 0.65 <= x < 0.74:
+            x = 0.1          # no selectall / fileinfo in a narrow session: create instead
         bound = list(sh.slots.keys())
         if x < 0.22 or not sh.anns:
-            t = r.choice([0, 0, 0, 1, 1, 1, 2, 3])
+            t = r.choice([0, 0, 0, 1, 1, 1, 2, 3]) if types is None else r.choice(T)
             s = sh.nslot % 48
             sh.nslot += 1
             if t < 2:
@@ -122,7 +130,7 @@ def gen_an_phase(r, sh, lines, malformed, nops):
                     lines.append("createf %d %d" % (s, t))
             sh.anns.append(dict(type=t, target=tg, written=None, insession=True))
             sh.slots[s] = len(sh.anns) - 1
-            if r.random() < 0.6:
+            if r.random() < (0.6 if types is None else 0.35):
                 txt = gen_text(r, t in (0, 2))
                 lines.append("write %d %s" % (s, hexs(txt)))
                 sh.anns[-1]["written"] = len(txt)
@@ -140,7 +148,7 @@ def gen_an_phase(r, sh, lines, malformed, nops):
         elif x < 0.57 and bound:
             lines.append("len %d" % r.choice(bound))
         elif x < 0.65:
-            t = r.randrange(4)
+            t = r.choice(T)
             n = sh.count(t)
             idx = r.randrange(0, n) if n and r.random() < 0.9 else r.choice([n, n + 1, -1])
             s = sh.nslot % 48
@@ -160,9 +168,11 @@ def gen_an_phase(r, sh, lines, malformed, nops):
         elif x < 0.80:
             tg = r.choice(TARGETS)
             t = r.choice([0, 1]) if not malformed or r.random() < 0.8 else r.choice([2, 3])
+            if types is not None:
+                t = r.choice([k for k in T if k < 2] or [r.choice(T)])
             lines.append("%s %d %d %d" % (r.choice(["numann", "annlist", "annlist"]), t, tg[0], tg[1]))
         elif x < 0.86:
-            t = r.randrange(4)
+            t = r.choice(T)
             n = sh.count(t)
             ref = r.randrange(1, n + 2)
             tag = TYPE_TAG[t] if not malformed or r.random() < 0.8 else r.choice([0, 1, 102, 103, 106, 700])
@@ -176,7 +186,7 @@ def gen_an_phase(r, sh, lines, malformed, nops):
         elif x < 0.90 and bound:
             lines.append("id2tagref %d" % r.choice(bound))
         elif x < 0.92:
-            t = r.choice([0, 0, 1, 1, 2, 3])
+            t = r.choice([0, 0, 1, 1, 2, 3]) if types is None else r.choice(T)
             lines.append("gettagref %d %d" % (t, r.randrange(0, sh.count(t) + 1)))
         elif x < 0.94 and bound:
             lines.append("endaccess %d" % r.choice(bound))
@@ -188,6 +198,20 @@ def gen_an_phase(r, sh, lines, malformed, nops):
     sh.slots = {s: i for s, i in sh.slots.items() if i is not None}
     if r.random() < 0.5:
         lines.append("ids")
+    if types is not None or r.random() < 0.15:
+        # a second session on the same open file: what was only created is gone, every tree must have been dropped
+        lines.append("restart")
+        sh.anns = [a for a in sh.anns if a["written"] is not None]
+        sh.slots = {}
+        probes = ["fileinfo"] + ["selectall %d" % t for t in range(4)]
+        for tg in TARGETS[:6]:
+            probes.append("%s %d %d %d" % (r.choice(["numann", "annlist"]), r.choice([0, 1]), tg[0], tg[1]))
+        r.shuffle(probes)
+        lines.extend(probes[:r.randrange(3, len(probes) + 1)])
+        for t in range(4):
+            if sh.count(t) and r.random() < 0.5:
+                lines.append("select %d %d %d" % (40 + t, t, r.randrange(sh.count(t))))
+                lines.append("read %d 400" % (40 + t))
     lines.append("end")
     sh.anns = [a for a in sh.anns if a["written"] is not None]
     for a in sh.anns:
@@ -226,8 +250,11 @@ def gen_df_phase(r, sh, lines, malformed, nops):
             sh.anns.append(dict(type=3, target=None, written=1))
         elif x < 0.92:
             lines.append(r.choice(["dfgetfids", "dfgetfdss"]))
-        else:
+        elif r.random() < 0.5:
             lines.append("dflablist %d %d" % (r.choice([700, 700, 701, 702]), r.choice([1, 2, 3, 5, 16, 17, 64, 400])))
+        else:   # paging through the refs of a tag: listsize and startpos around the number of objects (4 and 2)
+            lines.append("dflablist %d %d %d %d" % (r.choice([700, 700, 701]), r.choice([2, 16, 64]), r.choice([1, 2, 3, 4, 8]),
+                                                    r.choice([1, 2, 2, 3, 3, 4, 5])))
 
 
 NAME_SETS = [
@@ -257,8 +284,10 @@ def gen_df_burst(r, sh, lines, n):
             lines.append("%s %d %d %d" % (["dfgetlabel", "dfgetdesc"][k], tg[0], tg[1], r.choice([64, 400, 9])))
         elif x < 0.90:
             lines.append("%s %d %d" % (r.choice(["dfgetlablen", "dfgetdesclen"]), tg[0], tg[1]))
-        else:
+        elif r.random() < 0.5:
             lines.append("dflablist %d %d" % (r.choice([700, 701]), r.choice([16, 64])))
+        else:
+            lines.append("dflablist %d %d %d %d" % (r.choice([700, 701]), r.choice([16, 64]), r.choice([1, 2, 3]), r.choice([1, 2, 3, 4])))
 
 
 def gen_fenum(r, shs, lines, switch, nfiles):
@@ -319,7 +348,10 @@ def gen_history(r, name, malformed=False):
         if x < 0.35:
             switch(f)
             tmp = []
-            gen_an_phase(r, shs[f], tmp, malformed, r.randrange(4, 30))
+            narrow = None
+            if r.random() < 0.35:
+                narrow = r.choice([[1], [2], [3], [1, 3], [2, 3], [1, 2], [0], [0, 2]])
+            gen_an_phase(r, shs[f], tmp, malformed, r.randrange(4, 30) if narrow is None else r.randrange(3, 10), types=narrow)
             if nfiles > 1 and r.random() < 0.3:
                 # DFAN calls on another file while this file's AN session is still open
                 g = r.choice([k for k in range(nfiles) if k != f])
@@ -359,7 +391,8 @@ def gen_history(r, name, malformed=False):
         for t in range(4):
             for i in range(min(sh.count(t) + 1, 4)):
                 lines.append("gettagref %d %d" % (t, i))
-        lines += ["ids", "end", "dfgetfids", "dfgetfdss", "dflablist 700 64"]
+        lines += ["ids", "end", "dfgetfids", "dfgetfdss", "dflablist 700 64", "dflablist 700 64 2 1", "dflablist 700 64 2 3",
+                  "dflablist 700 64 1 4", "dflablist 701 64 1 2"]
         # the same enumerations call by call, labels and descriptions interleaved, without the length calls
         nn = max(sh.count(2), sh.count(3)) + 1
         for i in range(min(nn, 6)):
